@@ -271,8 +271,10 @@ def layer23(text, rot_i, trans, r0, opt=()):
     kt = observe.run(fedt, ["-k"] + list(opt), name="a")
     diffs = observe.compare_records(k0, kt, tol=1e-9)
     if diffs:
+        # (open finding F19: the angle partner of a COO-ARG pair is the first entry of a bond list, and the order of
+        # bond lists follows the frame-dependent cell-list traversal)
         v.append({"clause": "layer2/keep-protons-record", "detail": common.fmt_diffs(diffs),
-                  "sig": f8_sig(pdbio.parse(text), [d["key"] for d in diffs])})
+                  "sig": f8_sig(pdbio.parse(text), [d["key"] for d in diffs]) or c07.coo_arg_sig(k0, kt, diffs, None)})
     # ---- layer 3: program builds the hydrogens in the moved frame ----
     rt = observe.run(ttext, list(opt), name="a", want_atoms=True)
     if rt["error"]:
@@ -316,7 +318,8 @@ def layer23(text, rot_i, trans, r0, opt=()):
             diffs = observe.compare_records(rt, kb, tol=1e-9, keymap=km)
             if diffs:
                 v.append({"clause": "layer3b/explained-difference", "detail": common.fmt_diffs(diffs),
-                          "sig": f8_sig(pdbio.parse(text), [d["key"] for d in diffs])})
+                          "sig": f8_sig(pdbio.parse(text), [d["key"] for d in diffs])
+                          or c07.coo_arg_sig(rt, kb, diffs, None)})
         for c in r0["conf_names"]:
             i0, _ = observe.index_groups(r0["confs"][c])
             it, _ = observe.index_groups(rt["confs"][c])
